@@ -368,6 +368,8 @@ func Generate(seed uint64, prop, tier string) *Plan {
 				op.K = "execute"
 			case x == 11:
 				op.K = "count"
+			case x == 12 && r.Chance(1, 2):
+				op.K, op.N = "safectx", r.Intn(4)
 			default:
 				op.K, op.N = "pause", r.Range(1, 20)
 			}
